@@ -244,7 +244,8 @@ def check_queuer(ctx, prog, router_ty):
     def inv(dq, fl):
         return len(set(dq)) == len(dq) and all((w in dq) == fl[w] for w in range(len(fl)))
     # availability of the three workers: available / busy with k1 / busy with k0 (sticky affinity) / has queued jobs
-    kinds = {'avail': dict(), 'busy_k1': dict(busy_keys=[K1]), 'busy_k0': dict(busy_keys=[K0]), 'queued': dict(queued=1)}
+    # (the pending-key table of every record is exact - C14_books - so a worker busy with a key has that key pending; the queued job is one of key k1)
+    kinds = {'avail': dict(), 'busy_k1': dict(busy_keys=[K1], pending_keys=[K1]), 'busy_k0': dict(busy_keys=[K0], pending_keys=[K0]), 'queued': dict(queued=1, pending_keys=[K1])}
     combos = [('avail', 'avail', 'avail'), ('busy_k1', 'avail', 'busy_k1'), ('busy_k1', 'busy_k1', 'busy_k1'), ('busy_k0', 'avail', 'queued'), ('queued', 'busy_k1', 'avail')]
     for (dq, flags) in queuer_states():
         for combo in combos:
@@ -344,7 +345,17 @@ def run(ctx):
     import C14_books
     C14_books.check(ctx, prog)
     import C14_exclusive
+    import C14_exclusive_replay
     C14_exclusive.check(ctx, prog)
+    try:
+        bad, n = C14_exclusive_replay.battery()
+        ctx.translator_validated += n
+        if bad:
+            rec = {'name': 'exclusive.dead_worker_window', 'group': 'C14.exclusive', 'solver_s': 0.0, 'status': 'cex'}
+            ctx.obligations.append(rec)
+            ctx.handle_cex(rec['name'], 'C14.exclusive.native', None, lambda _m: {'replayed': True, 'detail': 'real routers across a dead-worker window: %s' % bad[:3], 'replay': {'which': 'exclusive', 'pool': [], 'hint': None}}, rec)
+    except RuntimeError as e:
+        ctx.inconclusive.append('exclusive native battery unavailable: %s' % str(e)[-300:])
 
 
 def replay_file(path):
@@ -354,7 +365,7 @@ def replay_file(path):
     if d['replay']['which'] == 'exclusive':
         import C14_exclusive_replay
         rp = d['replay']
-        r = C14_exclusive_replay.replay(tuple((w, (tuple(qc[0]), tuple(qc[1]))) for w, qc in rp['pool']), rp['hint'])
+        r = C14_exclusive_replay.replay(tuple((w, (tuple(qc[0]), tuple(qc[1]))) for w, qc in rp['pool']), rp['hint'], rp.get('router', 'KeyPersistentRouting'))
     elif d['replay']['which'] == 'books':
         r = C14_replay.replay_books(d['replay']['rp'])
     else:
